@@ -34,15 +34,15 @@ theorem qtc_accuracy (hF : Lawful F) (d : Params α) (hab : d.a ≤ d.b) (ho : 0
 end field
 
 /-- **what the integration loop returns** (`avgRunCapped`, any round budget; `avgRun` is the budget 30 of the
-code): composite trapezoid sums on `2^i` panels of `1[y>0] − F^n` resp. `1[y>0] − (1 − (1−F)^n)` over
-`[a−6o, b+6o]`, at a round `i > 3` at which all of them moved by less than `3·atol` — and nothing more. -/
+code): composite trapezoid sums on `2^i` panels of `1 − F^n` resp. `(1−F)^n` over `[a−6o, b+6o]`, at a round
+`i > 3` at which all of them moved by at most `3·atol` — and nothing more. -/
 theorem avgRunCapped_spec {F : Fns ℝ} (hF : Lawful F) (d : Params ℝ) (ns : List ℝ) (mn : Option Bool)
     (atol : Option ℝ) (rounds : ℕ) (r : ℕ × List ℝ × List ℝ) (h : avgRunCapped F d ns mn atol rounds = some r) :
     3 < r.1 ∧
-      r.2.1 = ns.map (fun nn => Trap.trap (gCur F.n F.pow (cdf F d) (mn.getD d.convex) nn) (intLo F d) (intHi F d) r.1) ∧
-      ∀ nn ∈ ns, |Trap.trap (gCur F.n F.pow (cdf F d) (mn.getD d.convex) nn) (intLo F d) (intHi F d) r.1
-          - Trap.trap (gCur F.n F.pow (cdf F d) (mn.getD d.convex) nn) (intLo F d) (intHi F d) (r.1 - 1)|
-        < 3 * atolOf F d atol := by
+      r.2.1 = ns.map (fun nn => Trap.trap (gRep F.n F.pow (cdf F d) (mn.getD d.convex) nn) (intLo F d) (intHi F d) r.1) ∧
+      ∀ nn ∈ ns, |Trap.trap (gRep F.n F.pow (cdf F d) (mn.getD d.convex) nn) (intLo F d) (intHi F d) r.1
+          - Trap.trap (gRep F.n F.pow (cdf F d) (mn.getD d.convex) nn) (intLo F d) (intHi F d) (r.1 - 1)|
+        ≤ 3 * atolOf F d atol := by
   unfold avgRunCapped at h
   have hn : F.n = TrapLoop.cast := funext hF.n_cast
   rw [hn] at h
@@ -50,19 +50,67 @@ theorem avgRunCapped_spec {F : Fns ℝ} (hF : Lawful F) (d : Params ℝ) (ns : L
   refine ⟨h3, ?_, ?_⟩
   · rw [hT, List.map_map, hn]; rfl
   · intro nn hnn
-    have := herr (gCur TrapLoop.cast F.pow (cdf F d) (mn.getD d.convex) nn) (List.mem_map.mpr ⟨nn, hnn, rfl⟩)
+    have := herr (gRep TrapLoop.cast F.pow (cdf F d) (mn.getD d.convex) nn) (List.mem_map.mpr ⟨nn, hnn, rfl⟩)
     rw [hn]; exact this
 
-/-- **F5 as a theorem of the model**: for the point mass `a = b, o = 0` with the default tolerance the loop
-never satisfies its stopping rule, whatever the round budget (`atol = 1e-6·(hi − lo) = 0` and `err ≥ 0`) -/
-theorem avgRunCapped_pointMass_none {F : Fns ℝ} (hF : Lawful F) (d : Params ℝ) (hab : d.a = d.b) (ho : d.o = 0)
-    (ns : List ℝ) (mn : Option Bool) (rounds : ℕ) : avgRunCapped F d ns mn none rounds = none := by
+/-- the integrand vanishes identically on the (degenerate) grid of the point mass `a = b, o = 0`:
+`F(a) = 1`, so `1 − 1ⁿ = 0` and `(1−1)ⁿ = 0` -/
+theorem gRep_pointMass {F : Fns ℝ} (hF : Lawful F) (d : Params ℝ) (hab : d.a = d.b) (ho : d.o = 0)
+    (m : Bool) (nn : ℝ) (hp0 : F.pow 0 nn = 0) (hp1 : F.pow 1 nn = 1) :
+    gRep F.n F.pow (cdf F d) m nn d.a = 0 := by
+  have hpm : pointMass F d = true := by
+    unfold pointMass
+    rw [(hF.eq_iff _ _).mpr hab, (hF.eq_iff _ _).mpr (by rw [ho, hF.n_cast]; simp)]
+    rfl
+  have hc : cdf F d d.a = 1 := by
+    unfold cdf
+    rw [if_pos hpm, if_neg (lt_irrefl _), hF.n_cast]; simp
+  unfold gRep
+  rw [hc, hF.n_cast]
+  cases m <;> simp [hp0, hp1]
+
+/-- **the point mass returns** (repair fd4085d of finding F5; before it the strict test `err < atol` with
+`atol = 1e-6·(hi−lo) = 0` never held and the loop ran out of memory): for `a = b`, `o = 0`, the default
+tolerance and any budget of at least 4 rounds the loop stops at round 4 and `average_tuning_curve` is
+constantly `a` (`0ⁿ = 0`, `1ⁿ = 1` for the exponents in `ns`; true of `rpow` for `n ≠ 0`) -/
+theorem averageTuningCurve_pointMass {F : Fns ℝ} (hF : Lawful F) (d : Params ℝ) (hab : d.a = d.b) (ho : d.o = 0)
+    (ns : List ℝ) (mn : Option Bool) (hp0 : ∀ nn ∈ ns, F.pow 0 nn = 0) (hp1 : ∀ nn ∈ ns, F.pow 1 nn = 1) :
+    averageTuningCurve F d ns mn none = some (ns.map fun _ => d.a) := by
+  have hn : F.n = TrapLoop.cast := funext hF.n_cast
+  have hlo : intLo F d = d.a := by unfold intLo; rw [ho]; ring
+  have hhi : intHi F d = d.a := by unfold intHi; rw [ho, ← hab]; ring
+  have hat : atolOf F d none = 0 := by
+    unfold atolOf; rw [hlo, hhi]; simp
+  have hz : ∀ nn ∈ ns, ∀ i : ℕ,
+      Trap.trap (gRep TrapLoop.cast F.pow (cdf F d) (mn.getD d.convex) nn) d.a d.a i = 0 := by
+    intro nn hnn i
+    apply trap_zero
+    intro k _
+    have : d.a + (k:ℝ) * Trap.h d.a d.a i = d.a := by unfold Trap.h; simp
+    rw [this, ← hn]
+    exact gRep_pointMass hF d hab ho _ nn (hp0 nn hnn) (hp1 nn hnn)
+  unfold averageTuningCurve avgRun avgRunCapped
+  rw [hat, hlo, hhi, hn]
+  obtain ⟨e, he⟩ := runCapped_stationary
+    (ns.map fun nn => gRep TrapLoop.cast F.pow (cdf F d) (mn.getD d.convex) nn) d.a d.a 0 le_rfl
+    (by
+      intro g hg i _ _
+      obtain ⟨nn, hnn, rfl⟩ := List.mem_map.mp hg
+      rw [hz nn hnn, hz nn hnn]) 30 (by norm_num)
+  rw [he]
+  simp only [Option.map_some, List.map_map]
+  congr 1
+  apply List.map_congr_left
+  intro nn hnn
+  simp only [Function.comp_apply]
+  rw [hz nn hnn]; ring
+
+theorem avgRunCapped_neg_atol_none {F : Fns ℝ} (hF : Lawful F) (d : Params ℝ) (ns : List ℝ) (mn : Option Bool)
+    (atol : ℝ) (hat : atol < 0) (rounds : ℕ) : avgRunCapped F d ns mn (some atol) rounds = none := by
   unfold avgRunCapped TrapLoop.runCapped
   have hn : F.n = TrapLoop.cast := funext hF.n_cast
-  have hat : atolOf F d none = 0 := by
-    unfold atolOf intHi intLo
-    simp [hab, ho]
-  rw [hat, hn]
-  exact runFrom_none_of_atol_nonpos _ _ 0 le_rfl rounds _ _ _
+  have : atolOf F d (some atol) = atol := rfl
+  rw [this, hn]
+  exact runFrom_none_of_atol_neg _ _ atol hat rounds _ _ _
 
 end Opda.Noisy
